@@ -110,6 +110,10 @@ func c20Substs() []Subst {
 			Subst{File: f.file, Re: true, Old: `(?m)^(\s*)defer ` + mu + `[ \t]*$`, New: "${1}defer func() { ${2}${3}(); " + f.hook + " }()"},
 			Subst{File: f.file, Re: true, Old: `(?m)^(\s*)` + mu + `[ \t]*$`, New: "${1}${2}${3}(); " + f.hook})
 	}
+	// the entry of ProcessLogLine: a VM about to process a line
+	out = append(out,
+		Subst{File: "internal/runtime/vm/vm.go", Re: true, Old: `(?m)^(func \(v \*VM\) ProcessLogLine\([^)]*\) \{)$`, New: "${1}\n\tVerifPreempt()"},
+		Subst{File: "internal/runtime/vm/vm.go", Re: true, Old: `\z`, New: "\n// VerifPreempt is called when a VM is about to process a line (replay hook).\nvar VerifPreempt = func() {}\n"})
 	out = append(out, Subst{File: "internal/metrics/store.go", Re: true, Old: `\z`, New: "\n// VerifYield is called after every release of a store lock (replay hook).\nvar VerifYield = func() {}\n"})
 	return out
 }
@@ -118,7 +122,8 @@ func init() {
 	register(&CheckDef{ID: "C20", Level: "model_checking", Only: []string{"C20."},
 		Assumptions: append([]string{
 			"the compiler's answer for each of the harness's program texts is pre-computed with the working tree's compiler (compile bridge) and replayed by a stub of Compiler.Compile; natively the real compiler runs",
-			"the dispatcher goroutine of runtime.New and the VM goroutines run under the engine's deterministic scheduler: after each line they run until none can go on (natively: a 20 ms pause); the reloading goroutine is interleaved with them only at its own lock-release points, where the solver decides whether the next line arrives",
+			"the dispatcher goroutine of runtime.New and the VM goroutines run under the engine's deterministic scheduler: after each line they run until none can go on (natively: a 60 ms pause); the reloading goroutine is interleaved with them at its own lock-release points, where the solver decides whether the next line arrives, and a VM may be held back at the entry of ProcessLogLine (solver's choice) until the harness next waits or everything else is blocked (natively: an 80 ms sleep at that point)",
+			"regexp matching of a concrete pattern on a concrete line is done by the real regexp package",
 			"glog is a no-op, expvar a counter table, the clock is frozen",
 		}, baseAssumptions...),
 		Jobs: func(tier string) []JobDef {
@@ -126,13 +131,39 @@ func init() {
 			if err != nil {
 				return []JobDef{{Name: "bridge-failed: " + err.Error(), Pkg: rtPkg, Dir: "internal/runtime", Entry: "missing"}}
 			}
-			j := loaderJob("reload-with-line", "HarnessC20Reload", p(), "one program (an unconditional counter, scalar or with one constant label) loaded in the real runtime; 0..1 lines; one reload to the same declaration plus a comment or to a program with a different metric, with the next line arriving at any point at which the reloading goroutine releases handleMu/programErrorMu/insertMu/searchMu, or after the reload; one more line; then the input closes", gen)
+			before, delays := 1, 1
+			if tier == "thorough" {
+				before, delays = 2, 2
+			}
+			j := loaderJob("reload-with-line", "HarnessC20Reload", p("before", before, "delays", delays), fmt.Sprintf("one program (an unconditional counter, scalar or with one constant label, or a gauge set from the line's number) loaded in the real runtime; 0..%d lines; one reload to the same declaration plus a comment or to a program with a different metric, with the next line arriving at any point at which the reloading goroutine releases handleMu/programErrorMu/insertMu/searchMu, or after the reload; one more line; up to %d times a VM that has received a line is held back before processing it until the harness next waits or the reloading goroutine has to wait; then the input closes", before, delays), gen)
 			j.Harness = append(j.Harness, "runtime/c20.go")
 			j.NativeOnly = []string{"runtime/c20_native.go"}
 			j.Substs = c20Substs()
 			return []JobDef{j}
 		},
-		Outside: []string{"schedules of the dispatcher and VM goroutines other than run-to-quiescence after each line (a VM that is still busy with a line when the next one arrives, two VMs of one program running at the same moment)", "more than one reload; several programs; reloads through SIGHUP or the poll loop", "programs with patterns (every line is the same to these programs)"}})
+		Outside: []string{"schedules of the dispatcher and VM goroutines other than run-to-quiescence with a VM held back before a line (preemption of a VM in the middle of a line, of the dispatcher between two programs)", "more than one reload; several programs; reloads through SIGHUP or the poll loop", "programs with patterns (every line is the same to these programs)"}})
+}
+
+// ---- C18: the tailer over the model file system ----
+
+const tailerPkg = "github.com/google/mtail/internal/tailer"
+
+func init() {
+	register(&CheckDef{ID: "C18", Level: "model_checking", Only: []string{"C18."},
+		Jobs: func(tier string) []JobDef {
+			steps := 2
+			if tier == "thorough" {
+				steps = 3
+			}
+			return []JobDef{{Name: fmt.Sprintf("history-%d", steps), Pkg: tailerPkg, Dir: "internal/tailer",
+				Harness: []string{"tailer/c18.go"}, Entry: "HarnessC18History", Params: p("steps", steps),
+				Bound: fmt.Sprintf("patterns <dir>/*.log and <dir>/a* with ignore expression \\.gz$; a.log present or not before the tailer starts; every history of %d steps over {create one of a.log b.log ab c.txt a.gz d.log, remove one of them, mkdir d.log, rename a.log to b.log, nothing}, each followed by a pattern poll and a stream poll, then one line appended to every existing file", steps)}}
+		},
+		Assumptions: append([]string{
+			"the file system is the model of C16 (entries directly under one directory); filepath.Glob lists it with the real filepath.Match on the concrete names; url.Parse, filepath.Abs and the ignore expression's matcher are the real functions on concrete strings (natively: a temporary directory and the real functions)",
+			"the tailer's and the streams' goroutines run under the engine's deterministic scheduler; after each wake-up they run until none can go on (natively: 60 ms), which is the property's 'after the next pattern poll' premise: nothing is claimed for edits that race with a poll",
+		}, baseAssumptions...),
+		Outside: []string{"histories longer than the bound; names outside the six-name universe; nested directories and patterns with directory wildcards", "unreadable files, symbolic links, sockets and pipes (C17)", "edits that race with a poll in progress"}})
 }
 
 func loaderC26Jobs(tier string) []JobDef {
